@@ -1,72 +1,3 @@
-/- GENERATED by harness/extract_load.py from Network/loaders.py, Network/elements.py,
-   Circuit/dump_load.py, Circuit/components.py, dump_load.py — do not edit. -/
-import CC.Model.LoadBase
-namespace CC.Gen.Load
-open CC.Load
-
-/-- `network_branch_translators` (Network/loaders.py), in source order -/
-def networkBranchTranslators : List NetLoader := [
-  { kind := "resistor", factory := "resistor" },
-  { kind := "conductor", factory := "conductor" },
-  { kind := "impedance", factory := "impedance", cxArgs := [("Z", "Z", .pop)], translateKeys := [] },
-  { kind := "admittance", factory := "admittance", cxArgs := [("Y", "Y", .get)], translateKeys := [] },
-  { kind := "linear_current_source", factory := "current_source", cxArgs := [], translateKeys := ["I", "Y"] },
-  { kind := "current_source", factory := "current_source", cxArgs := [("I", "I", .pop)], translateKeys := [] },
-  { kind := "real_current_source", factory := "current_source" },
-  { kind := "linear_voltage_source", factory := "voltage_source", cxArgs := [("V", "V", .pop), ("Z", "Z", .pop)], translateKeys := [] },
-  { kind := "voltage_source", factory := "voltage_source", cxArgs := [("V", "V", .pop)], translateKeys := [] },
-  { kind := "real_voltage_source", factory := "voltage_source" },
-  { kind := "short_circuit", factory := "short_circuit" },
-  { kind := "open_circuit", factory := "open_circuit" }
-]
-
-/-- the factories of Network/elements.py the table refers to -/
-def elementFactories : List ElemFactory := [
-  { name := "resistor", params := [("name", none), ("R", none)], norton := true, a := .param "R", b := .const (0), ty := "resistor" },
-  { name := "conductor", params := [("name", none), ("G", none)], norton := false, a := .param "G", b := .const (0), ty := "conductor" },
-  { name := "impedance", params := [("name", none), ("Z", none)], norton := true, a := .param "Z", b := .const (0), ty := "impedance" },
-  { name := "admittance", params := [("name", none), ("Y", none)], norton := false, a := .param "Y", b := .const (0), ty := "admittance" },
-  { name := "current_source", params := [("name", none), ("I", none), ("Y", some (0))], norton := false, a := .param "Y", b := .param "I", ty := "current_source" },
-  { name := "voltage_source", params := [("name", none), ("V", none), ("Z", some (0))], norton := true, a := .param "Z", b := .param "V", ty := "voltage_source" },
-  { name := "short_circuit", params := [("name", none)], norton := true, a := .const (0), b := .const (0), ty := "short_circuit" },
-  { name := "open_circuit", params := [("name", none)], norton := false, a := .const (0), b := .const (0), ty := "open_circuit" }
-]
-
-/-- does `entry_to_branch` work on a copy of the entry? -/
-def entryCopied : Bool := false
-/-- the four reads of `entry_to_branch`: (what, key, how) -/
-def entryReads : List (String × String × KeyRead) := [("n1", "N1", .pop), ("n2", "N2", .pop), ("name", "id", .pop), ("type", "type", .pop)]
-/-- `except KeyError: raise FileExistsError` in `load_network` -/
-def loadCaught : String := "KeyError"
-def loadRaised : String := "FileExistsError"
-/-- `if degree: z['phase'] *= np.pi/180` writes into the caller's dictionary -/
-def degreeInPlace : Bool := true
-
-/-- `circuit_component_translators` (Circuit/dump_load.py): kind ↦ constructor -/
-def circuitComponentTranslators : List (String × String) := [("resistor", "resistor"), ("conductance", "conductance"), ("impedance", "impedance"), ("admittance", "admittance"), ("dc_voltage_source", "dc_voltage_source"), ("ac_voltage_source", "ac_voltage_source"), ("complex_voltage_source", "complex_voltage_source"), ("dc_current_source", "dc_current_source"), ("ac_current_source", "ac_current_source"), ("complex_current_source", "complex_current_source")]
-
-/-- the constructors of Circuit/components.py the table refers to -/
-def componentFactories : List CompFactory := [
-  { name := "resistor", kind := "resistor", params := [("R", none)], guards := [("R", (0))], value := [("R", .param "R")] },
-  { name := "conductance", kind := "conductance", params := [("G", none)], guards := [("G", (0))], value := [("G", .param "G")] },
-  { name := "impedance", kind := "impedance", params := [("Z", none)], guards := [], value := [("R", .re "Z"), ("X", .im "Z")] },
-  { name := "admittance", kind := "admittance", params := [("Y", none)], guards := [], value := [("G", .re "Y"), ("B", .im "Y")] },
-  { name := "dc_voltage_source", kind := "dc_voltage_source", params := [("V", none), ("R", some (0))], guards := [("R", (0))], value := [("V", .param "V"), ("R", .param "R"), ("w", .const (0)), ("phi", .const (0))] },
-  { name := "ac_voltage_source", kind := "ac_voltage_source", params := [("V", none), ("R", some (0)), ("w", some (0)), ("phi", some (0))], guards := [("R", (0)), ("w", (0))], value := [("V", .param "V"), ("R", .param "R"), ("w", .param "w"), ("phi", .param "phi")] },
-  { name := "complex_voltage_source", kind := "complex_voltage_source", params := [("V", none), ("Z", some (0))], guards := [], value := [("V_real", .re "V"), ("V_imag", .im "V"), ("R", .re "Z"), ("X", .im "Z")] },
-  { name := "dc_current_source", kind := "dc_current_source", params := [("I", none), ("G", some (0))], guards := [("G", (0))], value := [("I", .param "I"), ("G", .param "G"), ("w", .const (0)), ("phi", .const (0))] },
-  { name := "ac_current_source", kind := "ac_current_source", params := [("I", none), ("G", some (0)), ("w", some (0)), ("phi", some (0))], guards := [("G", (0)), ("w", (0))], value := [("I", .param "I"), ("G", .param "G"), ("w", .param "w"), ("phi", .param "phi")] },
-  { name := "complex_current_source", kind := "complex_current_source", params := [("I", none), ("Y", some (0))], guards := [], value := [("I_real", .re "I"), ("I_imag", .im "I"), ("G", .re "Y"), ("B", .im "Y")] }
-]
-
-/-- does `generate_component` work on a copy of its argument? -/
-def componentCopied : Bool := true
-def componentReads : List CompRead := [{ var := "component_id", key := "id", read := .get, exc := "UnidentifiedComponent" }, { var := "component_value", key := "value", read := .pop, exc := "IncorrectComponentInformation" }, { var := "component_type", key := "type", read := .pop, exc := "IncorrectComponentInformation" }, { var := "component_nodes", key := "nodes", read := .get, exc := "IncorrectComponentInformation" }]
-def componentLookupExc : String := "UnknownCircuitComponent"
-def componentCallExc : String := "IncorrectComponentInformation"
-
-/-- `serializers` / `deserializers` of dump_load.py: format ↦ library function -/
-def serializers : List (String × String) := [("json", "json.dumps"), ("yaml", "yaml.dump"), ("yml", "yaml.dump")]
-def deserializers : List (String × String) := [("json", "json.loads"), ("yaml", "yaml.safe_load"), ("yml", "yaml.safe_load")]
-
-end CC.Gen.Load
+-- translator refused: Network/loaders.py:9: to_complex: no `if degree:` branch found
+#eval (panic! "translator refused" : Unit)
+example : False := by decide
